@@ -23,7 +23,7 @@ Oracle clauses (each evaluation is counted with ctx.ev):
                     attribute name) pointing at *the* corresponding source node (same unique name).
  (6) removed        filter_leaf_nodes / prune_leaves_without_taxa: reported nodes vs id-set difference.
  (7) single         a single survivor is a lone leaf carrying the accumulated root-to-leaf length
-                    (covered by (1), keyed with the discriminator 'single-survivor').
+                    (judged by (1); clauses 'length-not-accumulated' and '...:single-survivor').
 
 Soundness limits actually implemented:
  * child order is compared order-free (canonical form); an order difference is only *noted*.
@@ -37,9 +37,18 @@ Soundness limits actually implemented:
    library); Tree-level statement, so this is noted, not judged.
  * label-based variants are judged by label semantics, object-based ones by Taxon identity
    (they are compared with each other only in worlds without duplicate labels); labels that differ
-   only by case are not generated (namespace lookups are case-insensitive by default).
+   only by case are not generated (namespace lookups are case-insensitive by default, the
+   extract_*_labels wrappers match exactly; one fixed probe records the disagreement as a note).
  * every call keeps >= 1 leaf (quantifier); lengths are ints / dyadics (exact comparison) except the
    'float' pattern (1e-9 relative).
+ * the taxa / labels argument is normally a re-iterable container (list, tuple, set, frozenset, dict keys,
+   TaxonNamespace); one-shot iterators / generators -- allowed by the docstrings ("any iterable") -- are a
+   separate workload whose violations carry the discriminator 'one-shot-iterable' (an exception caused by
+   every leaf having been filtered out is folded into the same 'wrong-leaf-set' key).
+ * bipartition encodings produced by update_bipartitions=True are not inspected (that is C01's oracle).
+
+Violation keys: <api function>|<failed clause>|<discriminator>, discriminator = 'extraction' |
+'update_bipartitions=<flag>' | 'one-shot-iterable'.
 """
 import itertools
 import random
@@ -64,23 +73,27 @@ REACH = ["_tree:Tree.prune_taxa", "_tree:Tree.prune_taxa_with_labels", "_tree:Tr
          "_tree:Tree.extract_tree", "_tree:Tree.extract_tree_with_taxa", "_tree:Tree.extract_tree_with_taxa_labels",
          "_tree:Tree.extract_tree_without_taxa", "_tree:Tree.extract_tree_without_taxa_labels",
          "_node:Node.extract_subtree"]
-MIN_EVENTS = {"oracle:induced-compared": (20000, 300000),
-              "oracle:path-pairs-compared": (20000, 300000),
-              "oracle:agreement-compared": (2000, 30000),
-              "oracle:source-untouched-compared": (5000, 80000),
-              "oracle:extraction_source-compared": (5000, 80000),
-              "oracle:removed-nodes-compared": (2000, 30000),
-              "oracle:single-survivor-compared": (1000, 10000),
+MIN_EVENTS = {"oracle:induced-compared": (120000, 600000),
+              "oracle:path-pairs-compared": (400000, 2500000),
+              "oracle:agreement-compared": (120000, 500000),
+              "oracle:source-untouched-compared": (35000, 200000),
+              "oracle:extraction_source-compared": (190000, 1300000),
+              "oracle:removed-nodes-compared": (20000, 80000),
+              "oracle:single-survivor-compared": (25000, 100000),
               "oracle:selfcheck-brute-force": (1000, 1000),
-              "hook:Tree.prune_taxa:return": (1000, 10000),
-              "hook:Tree.retain_taxa:return": (1000, 10000),
-              "hook:Tree.filter_leaf_nodes:return": (1000, 10000),
-              "hook:Tree.prune_subtree:return": (500, 5000),
-              "hook:Tree.prune_leaves_without_taxa:return": (500, 5000),
-              "hook:Tree.extract_tree:return": (1000, 10000),
-              "hook:Tree.extract_tree_with_taxa:return": (1000, 10000),
-              "hook:Tree.extract_tree_without_taxa_labels:return": (1000, 10000),
-              "hook:Node.extract_subtree:return": (500, 5000)}
+              "hook:Tree.prune_taxa:return": (10000, 50000),
+              "hook:Tree.prune_taxa_with_labels:return": (10000, 50000),
+              "hook:Tree.retain_taxa:return": (10000, 50000),
+              "hook:Tree.retain_taxa_with_labels:return": (10000, 50000),
+              "hook:Tree.filter_leaf_nodes:return": (10000, 50000),
+              "hook:Tree.prune_subtree:return": (10000, 50000),
+              "hook:Tree.prune_leaves_without_taxa:return": (10000, 50000),
+              "hook:Tree.extract_tree:return": (5000, 25000),
+              "hook:Tree.extract_tree_with_taxa:return": (5000, 25000),
+              "hook:Tree.extract_tree_with_taxa_labels:return": (5000, 25000),
+              "hook:Tree.extract_tree_without_taxa:return": (5000, 25000),
+              "hook:Tree.extract_tree_without_taxa_labels:return": (5000, 25000),
+              "hook:Node.extract_subtree:return": (5000, 25000)}
 ASSUMPTIONS = ["trees are built through the node API (Node.add_child) and read back from the raw child lists",
                "every node of a workload tree carries a unique name (leaf: taxon, internal: node label) so that "
                "'which node survives a merge' and extraction_source can be judged",
@@ -136,7 +149,7 @@ def cases(tier, seed):
     for n in range(1, nmax + 1):
         for idx in range(len(gen.all_shapes(n))):
             yield {"kind": "shape", "n": n, "idx": idx, "seed": seed}
-    nrand = 700 if tier == "quick" else 6000
+    nrand = 700 if tier == "quick" else 8000
     for i in range(nrand):
         yield {"kind": "random", "i": i, "seed": seed}
     nflt = 250 if tier == "quick" else 3000
@@ -930,9 +943,10 @@ def run_shape(case, ctx, mon, rng):
                         # the exhaustive part: every variant, both flags, every subset
                         run_all_variants(mon, w, keep, sup, (False, True))
                     elif wi == 0:
-                        # n = 6 (thorough): every subset, a rotating selection of four variants
+                        # n = 6 (thorough): every subset, a rotating selection of six variants
                         k = (pick + 2 * sup + idx) % len(every)
-                        ops = ("prune_taxa",) + tuple(every[(k + 5 * j) % len(every)] for j in range(3))
+                        ops = ("prune_taxa",) + tuple(o for o in (every[(k + 3 * j) % len(every)] for j in range(5))
+                                                      if o != "prune_taxa")
                         run_all_variants(mon, w, keep, sup, (bool((pick + sup) % 2),), ops=ops)
                     elif n <= 4 or (n == 5 and pick == 0):
                         run_all_variants(mon, w, keep, sup, (True,), ops=INPLACE + ("extract_tree",))
@@ -1051,6 +1065,7 @@ def run_filters(case, ctx, mon, rng):
 def run_containers(case, ctx, mon, rng):
     """the taxa / labels argument as every kind of iterable the docstrings allow."""
     if case.get("fixed"):
+        explore_casefold(ctx)
         w = World(parse_tiny_newick("((A:1,B:2)ab:4,(C:8,D:16)cd:32)r"), True)
         subsets = [["A", "C", "D"], ["B", "D"]]
     else:
@@ -1066,6 +1081,19 @@ def run_containers(case, ctx, mon, rng):
                     continue
                 ctx.ev("containers:%s" % cont)
                 run_variant(mon, w, op, keep, True, False, cont)
+
+
+def explore_casefold(ctx):
+    """recorded, not judged: taxa whose labels differ only by case.  TaxonNamespace lookups are
+    case-insensitive by default (documented), the extract_*_labels wrappers compare labels exactly."""
+    w = World(parse_tiny_newick("((A:1,B:2)ab:4,(C:8,D:16)cd:32)r"), True, {"A": "x", "B": "X", "C": "c", "D": "d"})
+    t1 = w.build()
+    t1.prune_taxa_with_labels(["x"])
+    t2 = w.build().extract_tree_without_taxa_labels(["x"])
+    a = sorted(ref.leaf_taxa(U.snap(t1, w.names).spec))
+    b = sorted(ref.leaf_taxa(U.snap(t2, w.names).spec))
+    ctx.note("casefold-labels:prune_taxa_with_labels-and-extract_tree_without_taxa_labels-%s" % (
+        "agree" if a == b else "disagree(case-insensitive-namespace-lookup-vs-exact-match)"))
 
 
 def run_duplabels(case, ctx, mon, rng):
